@@ -3,13 +3,14 @@ CONSTANTS
   LabOrder <- LabAB
   R = 4
   Gaps = {1}
+  Kinds = {"zero", "own"}
   MaxClk = 6
   OOOBack = {2}
   Snap = FALSE
   FastOpts = {FALSE}
   Fast0 = FALSE
   AllowKF = {}
-  Acts = {"Scrape", "Cross", "OOO", "Mmap", "CompactHead", "CompactOOO", "EvictSel", "Cut", "Restart"}
+  Acts = {"Scrape", "Cross", "OOO", "Mmap", "CompactHead", "CompactOOO", "EvictSel", "Cut", "Restart", "Crash"}
   Script <- NoScript
   MaxOps = 4
   EmitMode = "class"
